@@ -135,7 +135,7 @@ def make_case(rng):
         feats.add("loc." + loc.split(":")[0] + (":edge" if ":" in loc else ""))
     offset = F(1)
     if rng.random() < 0.3:
-        offset = F(rng.randint(0, 12), 4)
+        offset = F(rng.randint(-12, 12), 4)      # negative: moves the other way
         attrs.append(("text-offset", fmt(offset)))
         feats.add("text-offset")
     tdx = tdy = F(0)
